@@ -2,6 +2,7 @@ import Driver.Codec
 import Driver.Attrs
 import Driver.AgentD
 import Driver.HmacD
+import Driver.UriD
 open Stun.Driver
 
 structure DState where
@@ -26,6 +27,9 @@ def step (s : DState) (line : String) : DState × String :=
     | none =>
     match stepHmac s.hm toks with
     | some (h, out) => ({ s with hm := h }, out)
+    | none =>
+    match stepUri toks with
+    | some out => (s, out)
     | none => (s, "bad-op")
 
 partial def loop (hin hout : IO.FS.Stream) (s : DState) : IO Unit := do
